@@ -14,6 +14,9 @@ pub(super) struct Pacer {
     tokens: usize,
     last_burst_time: Instant,
     rate: Option<usize>,
+    /// verification hook: (rate, new tokens) computed in floating point by the last `schedule`
+    #[cfg(gmquic_verif)]
+    verif_last: (usize, usize),
 }
 
 impl Pacer {
@@ -32,7 +35,22 @@ impl Pacer {
             tokens: capacity,
             last_burst_time: now,
             rate,
+            #[cfg(gmquic_verif)]
+            verif_last: (0, 0),
         }
+    }
+
+    /// verification hook (read-only): (capacity, tokens, cwnd, last rate, last new tokens, last_burst_time)
+    #[cfg(gmquic_verif)]
+    pub(super) fn verif_state(&self) -> (usize, usize, usize, usize, usize, Instant) {
+        (
+            self.capacity,
+            self.tokens,
+            self.cwnd,
+            self.verif_last.0,
+            self.verif_last.1,
+            self.last_burst_time,
+        )
     }
 
     pub(super) fn on_sent(&mut self, packet_size: usize) {
@@ -69,6 +87,10 @@ impl Pacer {
         // TODO: 时间间隔有上限
         // elapsed.max(srtt.as_secs_f64() * 2);
         let new_token = elapsed.as_secs_f64() * rate as f64;
+        #[cfg(gmquic_verif)]
+        {
+            self.verif_last = (rate, new_token as usize);
+        }
         self.tokens = self
             .tokens
             .saturating_add(new_token as usize)
